@@ -1,5 +1,5 @@
 (* Props/C19.v -- property C19: robotics expressions evaluate totally and exactly; plain numbers are unchanged. *)
-From SS Require Import Model.Robotics Proofs.Robotics.
+From SS Require Import Model.Robotics Proofs.Robotics Proofs.RoboticsTotal.
 Local Open Scope N_scope.
 
 Theorem C19_depth_guard : forall f r depth tag t,
@@ -32,6 +32,27 @@ Check C19_trailing_text_rejected : forall fuel s tag ev r c r',
   p_expr fuel (skip_ws s) 0%Z tag true = POk ev r -> skip_ws r = c :: r' ->
   eval_scalar fuel s tag = PErr.
 Print Assumptions C19_trailing_text_rejected.
+
+(* Totality: the recursive-descent evaluator never runs out of the fuel the checker gives it -- for EVERY text, tag
+   and nesting: 4 * length + 4 steps suffice (every loop iteration consumes its operator, every parenthesis its
+   '(' before recursing, every number parser returns a remainder no longer than its input). *)
+Theorem C19_evaluator_total : forall s tag fuel,
+  (4 * length s + 4 <= fuel)%nat -> eval_scalar fuel s tag <> PFuel.
+Proof. exact eval_scalar_total. Qed.
+Check C19_evaluator_total : forall s tag fuel,
+  (4 * length s + 4 <= fuel)%nat -> eval_scalar fuel s tag <> PFuel.
+Print Assumptions C19_evaluator_total.
+
+Theorem C19_checker_fuel_suffices : forall s tag, eval_scalar (4 * length s + 40) s tag <> PFuel.
+Proof. intros s tag. apply eval_scalar_total. apply Nat.add_le_mono_l. repeat constructor. Qed.
+Check C19_checker_fuel_suffices : forall s tag, eval_scalar (4 * length s + 40) s tag <> PFuel.
+Print Assumptions C19_checker_fuel_suffices.
+
+(* an accepted text has been read to its end *)
+Theorem C19_reads_everything : forall fuel s tag v r, eval_scalar fuel s tag = POk v r -> r = [].
+Proof. exact eval_scalar_reads_everything. Qed.
+Check C19_reads_everything : forall fuel s tag v r, eval_scalar fuel s tag = POk v r -> r = [].
+Print Assumptions C19_reads_everything.
 
 (* Non-vacuity, evaluated in the kernel on IEEE binary64: deg(180) is pi; 1 + 2 * 3 is 7; (1+2)*3 is 9;
    257 nested parentheses are refused, 256 accepted; "0.1+0.2" is 0x3FD3333333333334 *)
